@@ -302,11 +302,14 @@ def per_variable_dataset(ctxs):
 
     ds = xr.Dataset({"time": ("time", np.arange(3))})
     k = 0
-    for s, tests in ctxs[0]["streams"].items():
-        for m, t, kw in tests:
-            k += 1
-            ds[f"qc_{k}"] = xr.DataArray(np.zeros(3), dims=("time",), attrs={
-                "ioos_qc_module": m, "ioos_qc_test": t, "ioos_qc_target": s, "ioos_qc_config": json.dumps(kw or {})})
+    entries = [(s, m, t, kw) for s, tests in ctxs[0]["streams"].items() for m, t, kw in tests]
+    if KEY_ORDER_RNG is not None and KEY_ORDER_RNG.random() < 0.6:
+        # the QC variables of a file come in any order (by test, by creation time, ...), not grouped by target
+        KEY_ORDER_RNG.shuffle(entries)
+    for s, m, t, kw in entries:
+        k += 1
+        ds[f"qc_{k}"] = xr.DataArray(np.zeros(3), dims=("time",), attrs={
+            "ioos_qc_module": m, "ioos_qc_test": t, "ioos_qc_target": s, "ioos_qc_config": json.dumps(kw or {})})
     ds["plain_var"] = xr.DataArray(np.ones(3), dims=("time",), attrs={"long_name": "no qc here"})
     return ds
 
@@ -331,6 +334,16 @@ def carriers(ctxs, lay, scratch, rng):
             if isinstance(o, list):
                 return [with_tw(v, False) for v in o] if (not o or isinstance(o[0], (dict, list))) else tuple(o)
             return o
+        # window bounds as tz-aware datetimes in another zone: the same instants
+        def aware(o):
+            if isinstance(o, dict):
+                return {k: aware(v) for k, v in o.items()}
+            if isinstance(o, list):
+                return [aware(v) for v in o]
+            if isinstance(o, dt.datetime) and o.tzinfo is None:
+                return o.replace(tzinfo=dt.timezone.utc).astimezone(dt.timezone(dt.timedelta(hours=5, minutes=30)))
+            return o
+        yield "dict(tz-aware-window)", aware(json_to_dict(pd_))
         yield "dict(tw-window,tuple-spans)", with_tw(json_to_dict(pd_))
         yield "OrderedDict(tw-window,tuple-spans)", with_tw(pd_)
     ytxt = ruamel_yaml(pd_)
